@@ -42,9 +42,15 @@ type c08Scn struct {
 	Proto int    // 47 (1.8), 760 (1.19.1, profile key), 764 (1.20.2)
 	Pre   string // allow | deny | offline | online (config offline, handler forces online) | msg (allow + handler sends a login plugin message)
 	So    string // session server: 200 | 204 | 401 | err | noname | empty | 500
+	NoKey bool   // 1.19 / 1.19.1 client WITHOUT a profile key on a proxy with forceKeyAuthentication: false
 }
 
-func (s c08Scn) name() string { return fmt.Sprintf("p%d-%s-%s", s.Proto, s.Pre, s.So) }
+func (s c08Scn) name() string {
+	if s.NoKey {
+		return fmt.Sprintf("p%dnokey-%s-%s", s.Proto, s.Pre, s.So)
+	}
+	return fmt.Sprintf("p%d-%s-%s", s.Proto, s.Pre, s.So)
+}
 
 const (
 	c08Name    = "Player_1"
@@ -90,6 +96,9 @@ func (c *c08Run) fail(key, format string, a ...any) {
 func newC08Run(scn c08Scn) *c08Run {
 	cfg := kitConfig()
 	cfg.OnlineMode = scn.Pre != "online"
+	if scn.NoKey {
+		cfg.ForceKeyAuthentication = false
+	}
 	s := newKitSession(cfg, proto.Protocol(scn.Proto))
 	c := &c08Run{scn: scn, s: s, proofIdx: -1}
 	switch scn.So {
@@ -157,7 +166,7 @@ func (c *c08Run) issued() [][]byte {
 
 func (c *c08Run) successIdx() int { return c.s.Conn.firstIndex("", &packet.ServerLoginSuccess{}) }
 
-func (c *c08Run) keyed() bool { return c.scn.Proto == 760 }
+func (c *c08Run) keyed() bool { return c.scn.Proto == 760 && !c.scn.NoKey }
 
 // build makes the packet for op and reports (loginPacket, proves) where proves = this response
 // proves possession of the ISSUED token and carries a decryptable, AES-usable secret.
@@ -229,6 +238,14 @@ func (c *c08Run) build(op c08Op) (p proto.Packet, loginPacket, proves bool) {
 			r.Salt, r.VerifyToken = &salt, kitEncrypt(pub, token)
 		}
 		return r, true, false
+	case "ERsg": // keyless client, salted form: salt + garbage "signature"
+		return &packet.EncryptionResponse{SharedSecret: kitEncrypt(pub, c08Secret), VerifyToken: []byte(strings.Repeat("\x33", 128)), Salt: &salt}, true, false
+	case "ERse": // keyless client, salted form: salt + empty signature
+		return &packet.EncryptionResponse{SharedSecret: kitEncrypt(pub, c08Secret), VerifyToken: []byte{}, Salt: &salt}, true, false
+	case "ERst": // keyless client, salted form whose signature field holds the RSA-encrypted ISSUED token: the exact token is returned
+		return &packet.EncryptionResponse{SharedSecret: kitEncrypt(pub, c08Secret), VerifyToken: kitEncrypt(pub, token), Salt: &salt}, true, len(tokens) > 0
+	case "ERsw": // same, but a wrong token
+		return &packet.EncryptionResponse{SharedSecret: kitEncrypt(pub, c08Secret), VerifyToken: kitEncrypt(pub, wrong), Salt: &salt}, true, false
 	case "ERn": // keyed: valid signature but no salt in the packet
 		return &packet.EncryptionResponse{SharedSecret: kitEncrypt(pub, c08Secret), VerifyToken: kitSignToken(token, salt)}, true, false
 	case "ERb": // keyed: signature made over another salt
@@ -426,18 +443,30 @@ func c08Scenarios(thorough bool) []c08Scn {
 	}
 	for _, p := range []int{47, 760, 764} {
 		for _, so := range sos {
-			out = append(out, c08Scn{p, "allow", so}, c08Scn{p, "online", so})
+			out = append(out, c08Scn{Proto: p, Pre: "allow", So: so}, c08Scn{Proto: p, Pre: "online", So: so})
 		}
-		out = append(out, c08Scn{p, "deny", "200"}, c08Scn{p, "offline", "200"})
+		out = append(out, c08Scn{Proto: p, Pre: "deny", So: "200"}, c08Scn{Proto: p, Pre: "offline", So: "200"})
 		if p >= 393 {
-			out = append(out, c08Scn{p, "msg", "200"}, c08Scn{p, "msg", "204"})
+			out = append(out, c08Scn{Proto: p, Pre: "msg", So: "200"}, c08Scn{Proto: p, Pre: "msg", So: "204"})
 		}
+	}
+	// keyless 1.19 / 1.19.1 clients (the only versions whose EncryptionResponse can carry a salt)
+	// on a proxy that does not force key authentication
+	for _, p := range []int{759, 760} {
+		for _, so := range sos {
+			out = append(out, c08Scn{Proto: p, Pre: "allow", So: so, NoKey: true})
+		}
+		out = append(out, c08Scn{Proto: p, Pre: "online", So: "200", NoKey: true}, c08Scn{Proto: p, Pre: "offline", So: "200", NoKey: true})
 	}
 	return out
 }
 
 func c08Ops(scn c08Scn) []c08Op {
 	ops := []c08Op{{"LSv"}, {"ERg"}, {"LSi"}, {"ERt"}, {"ERs"}, {"ERl"}, {"ERr"}, {"LPu"}, {"UNK"}}
+	if scn.NoKey {
+		// salted wire forms sent by a client that has no key to sign with
+		return append(ops, c08Op{"ERsg"}, c08Op{"ERse"}, c08Op{"ERst"}, c08Op{"ERsw"})
+	}
 	if scn.Proto == 760 {
 		ops = append(ops, c08Op{"LSx"}, c08Op{"LSe"}, c08Op{"LSn"}, c08Op{"ERn"}, c08Op{"ERb"})
 	}
